@@ -391,39 +391,54 @@ Inductive step :=
 | SClient (raw : bytes) (parsed : option request)    (* later bytes from the client *)
 | SUpstream (raw : bytes).                           (* bytes received from upstream *)
 
-(* the steps are processed until one of them tears the connection down; whatever ends the
-   connection otherwise (peer EOF or reset, idle timeout, executor shutdown) is the end of the list.
-   Returns the log, the plugin state (None: HttpProxyPlugin never created) *)
-Fixpoint run_steps (cf : config) (ps : list plugin) (st : option pstate) (steps : list step) (l : log)
+(* does the failure leave handle_events() as an exception (the executor then shuts the work down at once)? *)
+Definition escapes (f : fail) : bool := match f with FRaise e => negb (is_oserror e) | FReject _ => false end.
+
+(* The steps are processed in order.  Whatever ends the connection without a decision of the
+   handler (peer EOF or reset, idle timeout, executor shutdown) is the end of the list.
+   When handle_data returns True (a rejection, or an OSError from a hook) the handler stops reading
+   the CLIENT; while the client buffer still holds unflushed bytes (e.g. the rejection response)
+   BaseTcpServerHandler only sets must_flush_before_shutdown, and HttpProxyPlugin.read_from_descriptors
+   keeps running: bytes arriving from upstream before the flush completes still go through the
+   handle_upstream_chunk chain and are queued for the client ([draining] = true).  An exception that
+   escapes handle_events ends the processing immediately.
+   Returns the log and the plugin state (None: HttpProxyPlugin never created). *)
+Fixpoint run_steps (cf : config) (ps : list plugin) (st : option pstate) (draining : bool) (steps : list step) (l : log)
     : log * option pstate :=
   match steps with
   | [] => (l, st)
   | s :: t =>
       match st, s with
       | None, SFirst r c =>
+          if draining then run_steps cf ps st draining t l else
           match on_request_complete cf ps r c l with
-          | (l1, Continue st1) => run_steps cf ps (Some st1) t l1
-          | (l1, Failed st1 f) => (handle_data_end f l1, Some st1)
+          | (l1, Continue st1) => run_steps cf ps (Some st1) false t l1
+          | (l1, Failed st1 f) =>
+              if escapes f then (handle_data_end f l1, Some st1)
+              else run_steps cf ps (Some st1) true t (handle_data_end f l1)
           end
       | Some st0, SClient raw parsed =>
+          if draining then run_steps cf ps st draining t l else
           match on_client_data cf ps st0 raw parsed l with
-          | (l1, Continue st1) => run_steps cf ps (Some st1) t l1
-          | (l1, Failed st1 f) => (handle_data_end f l1, Some st1)
+          | (l1, Continue st1) => run_steps cf ps (Some st1) false t l1
+          | (l1, Failed st1 f) =>
+              if escapes f then (handle_data_end f l1, Some st1)
+              else run_steps cf ps (Some st1) true t (handle_data_end f l1)
           end
       | Some st0, SUpstream raw =>
           if st_upstream st0 then
             match on_upstream_data ps st0 raw l with
-            | (l1, Continue st1) => run_steps cf ps (Some st1) t l1
+            | (l1, Continue st1) => run_steps cf ps (Some st1) draining t l1
             | (l1, Failed st1 f) => (upstream_data_end f l1, Some st1)
             end
-          else run_steps cf ps st t l
-      | _, _ => run_steps cf ps st t l             (* cannot happen: ignored *)
+          else run_steps cf ps st draining t l
+      | _, _ => run_steps cf ps st draining t l             (* cannot happen: ignored *)
       end
   end.
 
 (* one whole connection: the steps, then shutdown() exactly once (executor: C05/C10) *)
 Definition run_conn (cf : config) (ps : list plugin) (c0 : ctx) (steps : list step) : log :=
-  let '(l, st) := run_steps cf ps None steps [] in
+  let '(l, st) := run_steps cf ps None false steps [] in
   shutdown ps st c0 l.
 
 (* ------------------------------------------------------------------ observations on logs *)
